@@ -497,6 +497,41 @@ pub fn c13(c: &Case, rep: &mut Report) {
             }
         }
     }
+    // the history goes on after the pass: locals that the edit started using are emitted now, with their names
+    if let (Some(out), Some(lines)) = (end.get("out.gcuse"), end.str("uselocal")) {
+        if let (Ok(dout), Some(lines)) = (decode::decode(out), Some(lines)) {
+            let nout = names_of(&dout).ok().flatten().unwrap_or_default();
+            for l in lines.lines() {
+                let (k, name) = match l.split_once(' ') {
+                    Some((k, n)) => (k.parse::<i64>().unwrap_or(-1), n),
+                    None => continue,
+                };
+                let mut found: Option<(u32, u32)> = None;
+                for (fi, f) in dout.funcs.iter().enumerate() {
+                    if let Some(b) = &f.body {
+                        for w in b.ops.windows(3) {
+                            if let (wasmparser::Operator::I64Const { value }, wasmparser::Operator::Drop, wasmparser::Operator::LocalGet { local_index }) = (&w[0].op, &w[1].op, &w[2].op) {
+                                if *value == 0x77AA_0000 + k {
+                                    found = Some((fi as u32, *local_index));
+                                }
+                            }
+                        }
+                    }
+                }
+                match found {
+                    None => rep.count("local-uses-not-found-in-the-output", 1),
+                    Some((fo, x)) => {
+                        rep.count("locals-first-used-after-the-gc-pass", 1);
+                        total_checked += 1;
+                        let got = nout.locals.iter().find(|(f, _)| *f == fo).and_then(|(_, v)| v.iter().find(|(i, _)| *i == x)).map(|(_, n)| n.as_str());
+                        if got != Some(name) {
+                            rep.violation(c, "C13/local-name-lost-between-gc-and-first-use", &format!("gcuse: the local named {:?} in the input was first used after the GC pass; it is emitted as local {} of function out#{} and carries {:?}", name, x, fo, got), &[("out.wasm", out)]);
+                        }
+                    }
+                }
+            }
+        }
+    }
     rep.count("names-checked", total_checked);
     for s in &nin.other_subsections {
         rep.observe("droppable-subsections-seen", s);
